@@ -447,12 +447,13 @@ fn check_encoding(acc: &mut Acc, order: (u32, u64), enc: &'static Encoding, seed
 /// and the caller simply reads on.
 fn bom_after_transient_error(acc: &mut Acc, order: (u32, u64)) {
     use crate::env::Fault;
-    let docs: [&[u8]; 3] = [b"\xEF\xBB\xBF<?xml version=\"1.0\"?><r>t</r>", b"\xEF\xBB\xBF<r/>", b"\xEF\xBB\xBFtext<r/>"];
+    let docs: [&[u8]; 5] = [b"\xEF\xBB\xBF<?xml version=\"1.0\"?><r>t</r>", b"\xEF\xBB\xBF<r/>", b"\xEF\xBB\xBFtext<r/>", b"\xFF\xFE<\x00r\x00/\x00>\x00", b"\xFE\xFF\x00<\x00r\x00/\x00>"];
     for doc in docs {
         for piece in [0usize, 4, 5] {
-            for kind in [std::io::ErrorKind::WouldBlock, std::io::ErrorKind::TimedOut] {
+            // a hard transient error the caller reads on after, and an Interrupted the reader must retry itself
+            for kind in [std::io::ErrorKind::WouldBlock, std::io::ErrorKind::TimedOut, std::io::ErrorKind::Interrupted] {
                 let mut script = Script::pieces(piece);
-                script.faults.push((0, Fault::Hard(kind)));
+                script.faults.push((0, if kind == std::io::ErrorKind::Interrupted { Fault::Interrupted } else { Fault::Hard(kind) }));
                 let clean = Script::pieces(piece);
                 let run = |sc: &Script| -> Result<Vec<String>, String> {
                     guarded_mut(|| {
